@@ -1,4 +1,5 @@
 SPECIFICATION Spec
 CONSTANTS NC = 2 NI = 2 Delays = {1} PassTimeouts = {} Filters = {"all"}
           Nesting = FALSE ReAdds = 0 ExtFut = FALSE ReapOwnOnly = TRUE LateCancel = FALSE
+          HScripts = {} CoHandlers = FALSE ClaimFirst = TRUE
 INVARIANT NoTimeoutAfterClaim
